@@ -393,15 +393,10 @@ Lemma source_is_model :
   (forall V (cval : cst -> option V) defs,
      flat (gen_compileADF cval (map d_tree defs) (map fp_of defs)) = compile_adf cval defs).
 Proof.
-  repeat split; intros.
-  - apply gen_Primitive_format_eq.
-  - apply gen_Terminal_format_eq.
-  - now apply gen_format_eq.
-  - apply gen_str_eq.
-  - apply gen_from_string_eq.
-  - apply gen_compile_code_eq.
-  - apply gen_renameArguments_eq.
-  - apply gen_compileADF_defs.
+  split; [exact gen_Primitive_format_eq|]. split; [exact gen_Terminal_format_eq|].
+  split; [exact gen_format_eq|]. split; [exact gen_str_eq|]. split; [exact gen_from_string_eq|].
+  split; [exact gen_compile_code_eq|]. split; [exact gen_renameArguments_eq|].
+  intros V cval defs. apply gen_compileADF_defs.
 Qed.
 
 (* ---------------------------------------------------------------- the C12 theorems on the regenerated definitions *)
